@@ -69,6 +69,8 @@ static const char * label_of(int code)
   case 2: return "e+";
   case 3: return "e-";
   case 47: return "alpha";
+  case 13: return "neutron";
+  case 14: return "proton";
   default: return "all";
   }
 }
@@ -362,12 +364,13 @@ int main(int argc, char ** argv)
   events.push_back({"a-g", make_event({{47, {100.0, -50.0, 120.0}}, {1, {0.05, 0.02, -0.01}}})});
   events.push_back({"4mix", make_event({{3, {0.9, 0, 0}}, {3, {0, 0.8, 0}}, {1, {0, 0, 0.7}}, {2, {0.3, 0.3, -0.3}}})});
   events.push_back({"tiny", make_event({{3, {1e-9, -2e-9, 1.5e-9}}, {1, {0.3, 0.1, 0.2}}})});
+  events.push_back({"n-p-e+", make_event({{13, {0.02, 0.01, -0.03}}, {14, {10.0, 5.0, -2.0}}, {2, {0.4, -0.1, 0.2}}})});
   events.push_back({"4e-", make_event({{3, {0.3, 0.1, 0.5}}, {3, {-0.3, 0.4, 0.2}}, {3, {0.1, -0.6, 0.3}}, {3, {-0.2, -0.1, -0.7}}})});
   // ---- axes
   std::vector<V3> axes = {{1, 0, 0}, {-1, 0, 0}, {0, 1, 0}, {0, -1, 0}, {0, 0, 1}, {0, 0, -1}, {1, 1, 1}, {1e-9, 0, 1}, {0.3, -0.8, 0.2}, {-2, 1, -3}, {0, 0, 5}, {-0.5, -0.5, 0.1}, {0.6, 0, -0.8}, {1, 1e-12, -1e-12}};
   std::vector<double> apertures = {0.0, 1e-3, 0.3, M_PI / 2, 2.0, M_PI - 1e-3};
   std::vector<std::pair<double, double>> rects = {{0.2, 0.1}, {0.1, 0.2}, {1.0, 0.05}, {0.05, 1.0}, {0.7, 0.7}, {0.0, 0.3}, {0.3, 0.0}};
-  std::vector<int> codes = {0, 3, 1, 47};
+  std::vector<int> codes = {0, 3, 1, 47, 2};
   std::vector<int> ranks = {-1, 0, 1, 5};
   std::vector<double> grid = {1e-12, 0.17, 0.4, 0.63, 0.88, 1 - 1e-12};
   if (!full) {
@@ -399,6 +402,56 @@ int main(int argc, char ** argv)
                 for (double u1 : grid) check_application(op, s, ev.second, ev.first, u0, u1, S);
           }
         }
+  // ---- every label of the label-based entry point selects the species the code-based entry point selects with the
+  //      corresponding code (short and long spellings; unknown labels are refused)
+  {
+    static const struct { const char * label; int code; } LAB[] = {{"g", 1}, {"gamma", 1}, {"e+", 2}, {"positron", 2}, {"e-", 3}, {"electron", 3}, {"n", 13}, {"neutron", 13},
+                                                                    {"p", 14}, {"proton", 14}, {"a", 47}, {"alpha", 47}, {"*", 0}, {"all", 0}};
+    for (auto & lc : LAB)
+      for (int rank : {-1, 0, 1})
+        for (auto & ev : events) {
+          MDL byl, byc;
+          MDL::config_type c;
+          c.particle_label = lc.label;
+          c.target_particle_rank = rank;
+          c.cone_phi_degree = 30.0;
+          c.cone_theta_degree = 60.0;
+          c.cone_aperture_degree = 8.0;
+          c.error_on_missing_particle = false;
+          std::string key = std::string("mdl:label:") + lc.label;
+          try {
+            byl.set(c);
+            byc.set((bxdecay0::particle_code)lc.code, rank, 30.0 * M_PI / 180.0, 60.0 * M_PI / 180.0, 8.0 * M_PI / 180.0, false);
+          } catch (std::exception & e) {
+            S.V(key + ":refused", std::string("label '") + lc.label + "' is refused: " + e.what());
+            continue;
+          }
+          for (uint64_t ph : {(uint64_t)11, (uint64_t)12}) {
+            event e1 = ev.second, e2 = ev.second;
+            Forced none;
+            PortRand r1, r2;
+            r1.s.forced = r2.s.forced = &none;
+            r1.s.phase = r2.s.phase = ph;
+            r1.horizon = r2.horizon = 20000;
+            bool t1 = false, t2 = false;
+            try { byl(r1, e1); } catch (std::exception &) { t1 = true; }
+            try { byc(r2, e2); } catch (std::exception &) { t2 = true; }
+            S.applications++;
+            if (t1 != t2 || !bit_identical(e1, e2) || r1.i != r2.i)
+              S.V(key + ":species", std::string("event ") + ev.first + ", rank " + std::to_string(rank) + ": the operation configured with label '" + lc.label + "' does not act like the one configured with particle code "
+                                        + std::to_string(lc.code));
+          }
+        }
+    for (const char * bad : {"", "E-", "electrons", "e", "gammas", "alpha ", "x"}) {
+      MDL op;
+      MDL::config_type c;
+      c.particle_label = bad;
+      c.cone_aperture_degree = 8.0;
+      bool threw = false;
+      try { op.set(c); } catch (std::exception &) { threw = true; }
+      if (!threw) S.V(std::string("mdl:label:unknown:") + bad, std::string("unknown particle label '") + bad + "' is accepted");
+    }
+  }
   // ---- reconfiguration chains: one operation object configured twice (and reset in between or not) must behave
   //      exactly like a fresh object holding the second configuration (no stale field of the first survives)
   {
